@@ -351,7 +351,7 @@ func runCase(r *mon.Run, c Case) {
 }
 
 func main() {
-	r := mon.Start("C11", "strings: s in [0,N), [p-N,p) and [2^255-N,2^255) x bit 255 clear/set (N = 64 quick, 65536 thorough), PRNG strings with their negations and +p forms, valid encodings with bit flips / bit 255 / +p / negation; lengths 0..70 with pre-loaded receivers; for elements [k]B (k catalogue + PRNG): all 4 coset representatives x 3 projective scalings through the graft must encode to the RFC bytes and be pairwise Equal, distinct elements unequal; Add/Sub/Sum/Mul/ConditionalSelect through encodings; SetUniformBytes/SetRandom on halves {0, ff, 1, p-1, p, 2^255-1, sqrt(-1)}^2 + PRNG vs the RFC one-way map; non-trivial = a string / element / 64-byte input; distinct = SHA-256 of it")
+	r := mon.Start("C11", "strings: s in [0,N), [p-N,p) and [2^255-N,2^255) x bit 255 clear/set (N = 768 quick, 65536 thorough), PRNG strings with their negations and +p forms, valid encodings with bit flips / bit 255 / +p / negation; lengths 0..70 with pre-loaded receivers; for elements [k]B (k catalogue + PRNG): all 4 coset representatives x 3 projective scalings through the graft must encode to the RFC bytes and be pairwise Equal, distinct elements unequal; Add/Sub/Sum/Mul/ConditionalSelect through encodings; SetUniformBytes/SetRandom on halves {0, ff, 1, p-1, p, 2^255-1, sqrt(-1)}^2 + PRNG vs the RFC one-way map; non-trivial = a string / element / 64-byte input; distinct = SHA-256 of it")
 	r.Observe("graft", gx.Available)
 	var c Case
 	if r.LoadReplay(&c) {
@@ -360,18 +360,18 @@ func main() {
 		return
 	}
 	var cases []Case
-	n := r.Pick(64, 65536)
+	n := r.Pick(768, 65536)
 	for lo := 0; lo < n; lo += 32 {
 		cases = append(cases, Case{Kind: "srange", Lo: lo, Hi: lo + 32})
 	}
 	cases = append(cases, Case{Kind: "lengths", Stream: "c11/lengths"})
-	for i := 0; i < r.Pick(2, 60); i++ {
+	for i := 0; i < r.Pick(8, 300); i++ {
 		cases = append(cases, Case{Kind: "classes", Stream: fmt.Sprintf("c11/classes/%d", i)})
 	}
-	for i := 0; i < r.Pick(6, 120); i++ {
+	for i := 0; i < r.Pick(30, 800); i++ {
 		cases = append(cases, Case{Kind: "cosets", Stream: fmt.Sprintf("c11/cosets/%d", i)})
 	}
-	for i := 0; i < r.Pick(2, 60); i++ {
+	for i := 0; i < r.Pick(10, 300); i++ {
 		cases = append(cases, Case{Kind: "uniform", Stream: fmt.Sprintf("c11/uniform/%d", i)})
 	}
 	r.Parallel(len(cases), func(i int) { runCase(r, cases[i]) })
